@@ -221,6 +221,28 @@ def check(recipe) -> list[Fail]:
                 mol.extend_bonds([bond])
             model.add(f, None, None)   # adopted without coordinates: any row, but a row
             model.bonds.append(frozenset((id(a), id(f))))
+        elif name in ("append_bond_readopt", "append_bond_steal"):
+            if n < 1:
+                continue
+            a = model.atoms[op[1] % n]
+            if name == "append_bond_readopt":
+                dead = [x for x in model.keep if not any(x is y for y in model.atoms)]
+                if not dead:
+                    continue
+                f = dead[op[2] % len(dead)]     # an Atom object that was deleted from this molecule earlier
+            else:
+                donor = cls()                    # an atom that currently belongs to ANOTHER molecule
+                f = newatom(op[2])
+                donor.add_atom(f, [9.0, 9.0, 9.0])
+                model.donors = getattr(model, 'donors', []) + [donor]
+            bond = Bond(a, f) if op[3] else Bond(f, a)
+            [mol.append_bond, lambda b: mol.append_bonds(b), lambda b: mol.extend_bonds([b])][op[2] % 3](bond)
+            model.atoms.append(f)
+            if not any(f is y for y in model.keep):
+                model.keep.append(f)
+            model.coord[id(f)] = None
+            model.charge[id(f)] = None
+            model.bonds.append(frozenset((id(a), id(f))))
         elif name == "del_bond":
             if not model.bonds:
                 continue
@@ -295,9 +317,9 @@ def classify(recipe):
     ops = [o[0] for o in recipe["ops"]]
     labels = ["start=" + recipe["start"].split(":")[0], "cls=" + recipe.get("cls", "Molecule")]
     labels += sorted({"op=" + (o[0] if o[0] != "del_atom" else f"del_atom[{o[1]}]") for o in recipe["ops"]})
-    ins = [i for i, o in enumerate(ops) if o in ("add_atom", "new_atom", "append_bond_foreign", "append_bonds_foreign", "extend_bonds_foreign")]
+    ins = [i for i, o in enumerate(ops) if o in ("add_atom", "new_atom", "append_bond_foreign", "append_bonds_foreign", "extend_bonds_foreign", "append_bond_readopt", "append_bond_steal")]
     dels = [i for i, o in enumerate(ops) if o in ("del_atom", "remove_substituent")]
-    nt = bool(ins and dels and max(dels) > min(ins)) or any(o.endswith("_foreign") for o in ops) or any(o[0] == "del_atom" and o[1] in ("label", "element") for o in recipe["ops"])
+    nt = bool(ins and dels and max(dels) > min(ins)) or any(o.endswith("_foreign") or o in ("append_bond_readopt", "append_bond_steal") for o in ops) or any(o[0] == "del_atom" and o[1] in ("label", "element") for o in recipe["ops"])
     return nt, labels
 
 
@@ -315,6 +337,7 @@ def _ops(maxlen):
         st.tuples(st.just("connect"), _i, _i, _bt).map(list),
         st.tuples(st.just("append_bond"), _i, _i, _bt).map(list),
         st.tuples(st.sampled_from(["append_bond_foreign", "append_bonds_foreign", "extend_bonds_foreign"]), _i, _i, st.booleans()).map(list),
+        st.tuples(st.sampled_from(["append_bond_readopt", "append_bond_steal"]), _i, _i, st.booleans()).map(list),
         st.tuples(st.just("del_bond"), _i).map(list),
         st.tuples(st.just("remove_substituent"), _i, st.booleans()).map(list),
         st.just(["add_implicit_hydrogens"]),
@@ -348,6 +371,7 @@ _ALPHA = [
     ["add_atom", 0, [1.0, 2.0, 3.0], 0.5], ["add_atom", 1, [4.0, 5.0, 6.0], None], ["new_atom", 2, [7.0, 8.0, 9.0]],
     ["del_atom", "obj", 0], ["del_atom", "index", 1], ["del_atom", "label", 2], ["del_atom", "element", 0], ["del_atom", "element", 1],
     ["connect", 1, 2, 1], ["append_bond", 0, 2, 2], ["append_bond_foreign", 0, 3, True], ["append_bonds_foreign", 1, 0, False], ["extend_bonds_foreign", 2, 1, True],
+    ["append_bond_readopt", 0, 0, True], ["append_bond_steal", 1, 1, False],
     ["del_bond", 0], ["remove_substituent", 0, True], ["remove_substituent", 0, False], ["add_implicit_hydrogens"], ["sub_write", [0, 2], 1.5],
 ]
 
@@ -369,5 +393,5 @@ LEGS = [
     Leg("hist", check, classify, strategy=strat, n={"quick": 4000, "thorough": 40000}, shards={"quick": 16, "thorough": 32},
         rule="Hypothesis-generated edit histories (<=40 ops over add_atom / new_atom / del_atom by object|index|label|Element / connect / append_bond(s) / extend_bonds incl. foreign atoms / del_bond / remove_substituent / add_implicit_hydrogens / substructure write) on Molecule and Structure, started from empty, generated, cloned and bundled-mol2 molecules; " + _NT),
     Leg("short", check, classify, enumerate=enum_short, exhaustive=True, shards={"quick": 16, "thorough": 64},
-        rule="ALL op sequences of length <=3 (quick) / <=4 (thorough) over an 18-letter op alphabet from a 3-atom start x {Molecule, Structure} x {built, cloned}; " + _NT),
+        rule="ALL op sequences of length <=3 (quick) / <=4 (thorough) over an 20-letter op alphabet from a 3-atom start x {Molecule, Structure} x {built, cloned}; " + _NT),
 ]
